@@ -63,6 +63,8 @@ ROLES = {
     "local": ("def user():\n    {N} = 'L'\n    return {N}\n", "user()"),
     "funcname": ("def {N}():\n    return 'F'\n", "{N}()"),
     "classname": ("class {N}:\n    tag = 'C'\n", "{N}.tag"),
+    # the identifier names a class whose body uses private names: the mangled spelling is derived from the class name
+    "classname-private": ("class {N}:\n    __p = 'CP'\n    def get(self, *, __kw='K'):\n        self.__q = __kw\n        return self.__p + self.__q\n", "{N}().get() + str(sorted(k for k in vars({N}) if k.endswith('__p')))"),
     "classattr": ("class U:\n    {N} = 'A'\n    w = {N}\n", "U.{N} + U.w"),
     "looptarget": ("for {N} in ['T']:\n    pass\n", "{N}"),
     "alias": ("import math as {N}\n", "{N}.__name__"),
